@@ -198,7 +198,7 @@ type c18Type struct {
 func c18Types(ctx *Ctx) []c18Type {
 	var out []c18Type
 	var excluded []string
-	for _, t := range model.Types() {
+	for _, t := range model.TypesNoBulk() {
 		t := t
 		if explosive(t.Desc, false) {
 			excluded = append(excluded, string(t.Name))
